@@ -99,7 +99,52 @@ def run(rep, tier_, rng):
                 % (diff, ulp, ex, ex, prec, diff) if True else "", fn=nm, n=n, k=k, prec=prec)
         else:
             add("Z.abs (%d - (%s) * 2 ^ %d) <=? 2 ^ (%d)" % (m, ex, -e, max(0, t[3] - prec)), fn=nm, n=n, k=k, prec=prec)
+    # rising / falling factorials of integers that fill (or exceed) the precision: exact integer products as reference
+    for _ in range(40 if not big else 400):
+        prec = rng.choice([10, 24, 53, 64, 113, 200]); mp.prec = prec
+        x = (1 << prec) + rng.choice([-3, -2, -1, 0, 1, 2, 3, 4, 6]) * rng.choice([1, 1, 2])
+        n = rng.choice([1, 1, 2, 3, 5])
+        if rng.random() < 0.5:
+            # x itself fits the precision (even, just above 2^prec) while x -/+ n does not
+            x = (1 << prec) + 2 * rng.randint(1, 8); n = rng.choice([1, 1, 3])
+        if rng.random() < 0.3: x = -x
+        if rng.random() < 0.2: x = rng.randint(2, 10 ** 6)
+        xa = x
+        if rng.random() < 0.6 and (abs(x) >> max(0, (abs(x) & -abs(x)).bit_length() - 1)).bit_length() <= prec:
+            xa = mp.mpf(x)       # same number, passed as an mpf (exactly representable)
+        if rng.random() < 0.5:
+            v, nm = mp.ff(xa, n), "ff"; ex = " * ".join("(%d)" % (x - i) for i in range(n))
+        else:
+            v, nm = mp.rf(xa, n), "rf"; ex = " * ".join("(%d)" % (x + i) for i in range(n))
+        t = v._mpf_; inst += 1
+        if is_special(t):
+            rep.violation("%s(%d, %d) returned %r" % (nm, x, n, t), {"fn": nm, "x": x, "n": n, "prec": prec}); continue
+        m, e = (-1 if t[0] else 1) * t[1], t[2]
+        if e >= 0:
+            diff = "Z.abs (%d * 2 ^ %d - (%s))" % (m, e, ex); ulp = "2 ^ (%d)" % max(0, e + t[3] - prec)
+            add("(%s <=? %s) && (if Z.log2 (Z.abs (%s)) + 1 - (let x := Z.abs (%s) in Z.log2 (Z.land x (- x))) <=? %d then %s =? 0 else true)"
+                % (diff, ulp, ex, ex, prec, diff), fn=nm, n=n, x=x, prec=prec)
+        else:
+            add("Z.abs (%d - (%s) * 2 ^ %d) <=? 2 ^ (%d)" % (m, ex, -e, max(0, t[3] - prec)), fn=nm, n=n, x=x, prec=prec)
     mp.prec = p0
+    # Bernoulli fractions far beyond the exhaustive Coq range, at indices with large von Staudt-Clausen denominators: decided on the
+    # search side by an independent exact computation (tangent numbers, integers only); a disagreement is a concrete failing input
+    def bern_exact(nmax):
+        from fractions import Fraction
+        h = nmax // 2 + 1
+        T = [0] * (h + 1); T[1] = 1
+        for k in range(2, h + 1): T[k] = (k - 1) * T[k - 1]
+        for k in range(2, h + 1):
+            for j in range(k, h + 1): T[j] = (j - k) * T[j - 1] + (j - k + 2) * T[j]
+        return {2 * k: Fraction((-1) ** (k - 1) * 2 * k * T[k], 4 ** k * (4 ** k - 1)) for k in range(1, h)}
+    idx = [120, 180, 240, 360, 420, 720, 840] + ([1260, 1680, 2520] if big else []) + [2 * rng.randint(61, 450) for _ in range(6 if not big else 40)]
+    BE = bern_exact(max(idx) + 2)
+    bern_oracle = 0
+    for n in idx:
+        p_, q_ = GZ.bernfrac(n); bern_oracle += 1
+        if BE[n].numerator != p_ or BE[n].denominator != q_:
+            rep.violation("bernfrac(%d) is not the Bernoulli number B_%d (independent exact computation)" % (n, n),
+                          {"fn": "bernfrac", "n": n, "got_numerator_bits": int(p_).bit_length(), "denominator": int(q_), "exact_denominator": BE[n].denominator})
     # exact=True variants and bernoulli/eulernum public
     for n in (0, 1, 5, 20, 100, 333):
         if mp.factorial(n, ) != math.factorial(n) and n < 15:
